@@ -623,6 +623,7 @@ def g_gate_gen_local(rng, level=0, n_random=200):
 
 
 @gen(CI + 'CliffordGate.forward#map_local')
+@gen(CI + 'CliffordGate.backward#map_local')
 def g_gate_map_local(rng, level=0, n_random=200):
     import pyclifford.circuit as ci
     pa, _ = _pc()
@@ -754,3 +755,25 @@ def g_rpauli(rng, level=0, n_random=120):
 def g_rpmap(rng, level=0, n_random=60):
     for k in range(n_random):
         yield {'N': k % 6}
+
+
+@gen(U + 'condense')
+def g_condense(rng, level=0, n_random=150):
+    for N in (1, 2):
+        for a in all_strings(N):
+            yield {'g': a}
+    for _ in range(n_random):
+        N = int(rng.integers(1, 7))
+        g = bits(rng, 2 * N)
+        for k in range(N):
+            if rng.integers(0, 2):
+                g[2 * k:2 * k + 2] = 0
+        yield {'g': g}
+
+
+@gen(CI + 'clifford_rotation_gate#noqubits')
+def g_rotgate(rng, level=0, n_random=150):
+    pa, _ = _pc()
+    for a in g_condense(rng, level, n_random):
+        if a['g'].any():
+            yield {'generator': pa.Pauli(a['g'], int(rng.integers(0, 4))), 'qubits': None}
